@@ -109,6 +109,14 @@ Eval(x) ==
   /\ evals' = Append(evals, [x |-> x, applied |-> Assign(x), fitness |-> Fitness(x)])
   /\ UNCHANGED << kcfg, phase >>
 
+\* The same calibration objects are run once more (a session): the declared configuration -
+\* parameters, boundaries, logarithmic flags, ranges - is what it was; a run never alters it.
+Rerun ==
+  /\ phase \in {"ready", "rejected"}
+  /\ phase' = "new"
+  /\ evals' = << >>
+  /\ UNCHANGED kcfg
+
 KInitWith(c) == kcfg = c /\ phase = "new" /\ evals = << >>
 
 \* nothing is evaluated before the ranges were accepted
